@@ -34,7 +34,7 @@ def mutate_conventional(rng):
         k = rng.randrange(10)
         if k == 0: lines.append(b"")
         elif k == 1: lines.append(b"#" + rng.choice([b" note", b"x=1", b" a # b", b""]))
-        elif k == 2: lines.append(b"[" + rng.choice([b"A", b"B", b"sec one"]) + b"]")
+        elif k == 2: lines.append(b"[" + rng.choice([b"A", b"B", b"sec one", b"[A]", b"[]", b"[B] ]", b"A"]) + b"]")
         elif k == 3: lines.append(b"  " + rng.choice([b"cont", b"more text", b"x y"]))
         else:
             key = rng.choice([b"a", b"b", b"key", b"k2"])
@@ -57,7 +57,7 @@ def parse_cmd(obj, path, content, dl, cm, py=False, jn=False):
 # ---------------------------------------------------------------- histories (5.6)
 import floatoracle as _fo
 SECTIONS = [None, b"", b"A", b"[A]", b"B", b"[B]", b"_none_", b"C c", b"[D", b"[A]b]", b"Ab", b"C", b"_none_2", b"Az", b"BY", b"[]", b"[", b"]", b"[ ]"]   # incl. names that are prefixes of other names
-KEYS = [b"k1", b"k2", b"k3", b"k4", b"key five", b"az", b"bY"]      # the last two have equal djb2 hashes
+KEYS = [b"k1", b"k2", b"k3", b"k4", b"key five", b"az", b"bY", b"_none_"]      # the last two have equal djb2 hashes
 BADKEYS = [None, b""]
 STRVALS = [b"v", b"", b"two words", b"Yes Please", b"-17", b"0x1F", b"077", b"1e3", b"true", b"NO", b"_none_",
            b"4294967296", b"2147483648", b"-1", b"99999999999999999999999", b" 12", b"12 ", b"p-", b"g@lse", b"nan", b"inf", b"1e-320", b"1e999", b"0"]        # incl. texts whose float conversion leaves errno set
